@@ -1,7 +1,7 @@
 """C03 — the validation gate decides exactly EDXML event validity, whatever the history."""
 import copy, io, json, sys, unicodedata
 from lxml import etree
-from common.core import Check, C, coq, run_cases, Raw, compile_defs
+from common.core import Check, C, coq, run_cases, Raw, compile_defs, Z
 from common import gen_doc as G
 import ontolib as OL
 import c03lib as L
@@ -211,6 +211,31 @@ def main(argv):
                 terms.append(coq((Raw(defname(schema_term)), [('v', val)], verdicts['EDXMLEvent'])))
                 metas.append(inp)
         ck.sample({'data_type': dt, 'values': values[:5]}, limit=3)
+    # ---------------- A': T1 — the integer schemas of the running code are the ones the all-strings theorems are about ----------------
+    from edxml.ontology import DataType
+    INT_SCHEMAS = {'tinyint': ('XUByte', None, None, 'XByte', None, None), 'smallint': ('XUShort', None, None, 'XShort', None, None),
+                   'mediumint': ('XUInt', None, 2 ** 24 - 1, 'XInt', -(2 ** 23), 2 ** 23 - 1), 'int': ('XUInt', None, None, 'XInt', None, None),
+                   'bigint': ('XULong', None, None, 'XLong', None, None)}
+    rec_terms, rec_meta = [], []
+    some_z = lambda x: C('Some', Z(x)) if x is not None else None
+    for kind, (ut, umn, umx, st, smn, smx) in INT_SCHEMAS.items():
+        for signed in (False, True):
+            dt = 'number:%s%s' % (kind, ':signed' if signed else '')
+            try:
+                term = RNG.value_schema(DataType(dt).generate_relaxng(None))
+            except Exception as e:
+                ck.obligation_failures.append(('T1:integer-schema', '%s: %r' % (dt, e)))
+                continue
+            exp = C('sint_spec' if signed else 'uint_spec', C(st if signed else ut), some_z(smn if signed else umn), some_z(smx if signed else umx))
+            rec_terms.append(coq((term, exp)))
+            rec_meta.append(dt)
+    bad_rec, errs_rec = run_cases(PID, 'From EdxmlVerif Require Import Base.Prelude Base.Regex Valid.Gate Valid.Gate_int.', 'vschema * dataspec', rec_terms,
+                                  'fun c => match fst c with VData d => dataspec_eqb d (snd c) | _ => false end', tag='t1int')
+    for i in bad_rec:
+        ck.obligation_failures.append(('T1:integer-schema', 'the schema generated for %s is not the integer schema of theorems C03_*_integer_value_space' % rec_meta[i]))
+    for e in errs_rec[:2]:
+        ck.obligation_failures.append(('T1:integer-schema', e))
+    ck.cov['integer_schemas_recognised'] = len(rec_terms) - len(bad_rec)
     # ---------------- B: structure ----------------
     sdef = structure_def()
     sonto = OL.load_element(sdef)
